@@ -56,6 +56,11 @@ EXTRA_BASE = [   # matrix-valued functions not in the C15 catalogue
     cat.E('base.trprint', [('T3',)], {'file': ('NONE',)}), cat.E('base.trprint2', [('T2',)], {'file': ('NONE',)}),
     cat.E('base.angdiff', [cat.V(None)]), cat.E('base.angdiff', [cat.V(3), cat.V(3)]), cat.E('base.removesmall', [('T3',)]),
     cat.E('base.det', [('R3',)]),
+    # graphics (Agg backend, figures closed around each call): options given as lists
+    cat.E('base.trplot', [('T3',)], {'dims': ('PLIST', 2)}, tags={'plot'}), cat.E('base.trplot', [('T3',)], {'dims': ('PLIST', 6)}, tags={'plot'}),
+    cat.E('base.trplot2', [('T2',)], {'dims': ('PLIST', 2)}, tags={'plot'}), cat.E('base.trplot2', [('T2',)], {'dims': ('PLIST', 4)}, tags={'plot'}),
+    cat.E('m:SE3.plot', [], {'dims': ('PLIST', 2)}, recv=('OBJ', 'SE3'), tags={'plot'}), cat.E('m:SO3.plot', [], {'dims': ('PLIST', 2)}, recv=('OBJ', 'SO3'), tags={'plot'}),
+    cat.E('m:SE2.plot', [], {'dims': ('PLIST', 2)}, recv=('OBJ', 'SE2'), tags={'plot'}), cat.E('m:SO2.plot', [], {'dims': ('PLIST', 2)}, recv=('OBJ', 'SO2'), tags={'plot'}),
 ]
 ENTRIES = cat.BASE + cat.CLASSES + EXTRA_BASE
 
@@ -76,6 +81,9 @@ def gen_extra(rng, spec):
     if k == 'P4N':
         P = gen.vec(rng, 16, 1e-2, 1e2).reshape(4, 4)
         return P
+    if k == 'PLIST':       # plot limits [lo, hi] * (n / 2), as a list the caller keeps and may reuse
+        a = float(rng.integers(2, 9))
+        return [-a, a] * (spec[1] // 2)
     return cat.gen_value(rng, spec)
 
 
@@ -154,10 +162,16 @@ def run_call(ctx, p):
         if '_seed' in k:
             k = dict(k)
             np.random.seed(k.pop('_seed'))
+        if 'plot' in e['tags']:
+            import matplotlib.pyplot as plt
+            plt.close('all')
         try:
             return ('ok', f(r, *a, **k) if e['target'].startswith('m:') else f(*a, **k))
         except Exception as ex:
             return ('exc', ex)
+        finally:
+            if 'plot' in e['tags']:
+                plt.close('all')
     o1 = do(args, kwargs, recv)
     after = snapshot((args, kwargs, recv))
     w = diff_where(before, after)
@@ -174,7 +188,9 @@ def run_call(ctx, p):
             ctx.judge('deterministic', snapshot(o1[1]) == snap1, dict(sig, kind='earlier_result_changed_by_later_call'),
                       lambda: '%s: the value returned by one call changed when the function was called again with other arguments' % e['name'])
     o2 = do(a2, k2, r2)
-    if o1[0] == 'ok' and o2[0] == 'ok':
+    if 'plot' in e['tags']:
+        pass        # the value returned is a handle of the graphics library (a new Axes each time): not a value to compare
+    elif o1[0] == 'ok' and o2[0] == 'ok':
         ctx.judge('deterministic', same(o1[1], o2[1]), dict(sig, kind='second_evaluation_differs'),
                   lambda: '%s: two evaluations on equal inputs give %s and %s' % (e['name'], core.short(o1[1].data if isinstance(getattr(o1[1], 'data', None), list) else o1[1], 200),
                                                                                  core.short(o2[1].data if isinstance(getattr(o2[1], 'data', None), list) else o2[1], 200)))
@@ -520,7 +536,7 @@ def run(ctx):
     i = 0
     for ei, e in enumerate(ENTRIES):
         for form in ('array', 'list'):
-            for _ in range(reps):
+            for _ in range(reps if 'plot' not in e['tags'] else max(2, reps // 16)):
                 i += 1
                 if not ctx.mine(i):
                     continue
